@@ -85,7 +85,7 @@ impl Prop for C08 {
      without segments between mapped lines, and >=1 unmapped byte and >=1 mapped byte; distinct by hash of the case JSON".into()
   }
   fn legs(&self, _tier: Tier) -> Vec<Leg<Case>> {
-    vec![Leg { name: "(T, M) pairs", source: Cases::Generated(Box::new(strategy), 100_000, 3_000_000) }]
+    vec![Leg { name: "(T, M) pairs", source: Cases::Generated(Box::new(strategy), 500_000, 6_000_000) }]
   }
   fn check(&self, case: &Case) -> CheckResult {
     let (t, m) = (&case.text, &case.map);
